@@ -271,6 +271,17 @@ def targeted_ops(rng, topo, flavour):
                                                    'pre_ops': [{'op': 'add_node', 'name': ln, 'node_id': None, 'site': site, 'ntype': 'VM'},
                                                                {'op': 'add_component', 'node': ln, 'name': 'nic1', 'node_id': None,
                                                                 'model_type': 'SmartNIC_ConnectX_6'}]}))
+        # the same two ways for peer(): '<a>-<b>-link' too long for a name, or already carried by the link of another pair
+        u = g.fresh('q')
+        la, lb = 'a' * 120 + u, 'b' * 121 + u
+        out.append(('derived-name-collision', {'op': 'peer', 'a': la, 'b': lb,
+                                               'pre_ops': [{'op': 'add_network_service', 'name': x, 'node_id': None, 'nstype': 'L3VPN', 'interfaces': None}
+                                                           for x in (la, lb)]}))
+        if 'cc' not in snames and 'bb-cc' not in snames:
+            mk = lambda x: {'op': 'add_network_service', 'name': x, 'node_id': None, 'nstype': 'L3VPN', 'interfaces': None}
+            out.append(('derived-name-collision', {'op': 'peer', 'a': u + '-aa-bb', 'b': 'cc',
+                                                   'pre_ops': [mk(u + '-aa'), mk('bb-cc'), mk(u + '-aa-bb'), mk('cc'),
+                                                               {'op': 'peer', 'a': u + '-aa', 'b': 'bb-cc'}]}))
     # --- sub-interfaces
     ded = [x for x in refs if tm.typ(x[1]) == 'DedicatedPort' and len(x[0]) == 2]
     if ded:
